@@ -242,6 +242,8 @@ func GenLayout(t *rapid.T, nRev int) Layout {
 	l.BoxLevel = rapid.IntRange(0, 4).Draw(t, "boxLevel")
 	l.ResLevel = rapid.IntRange(0, 4).Draw(t, "resLevel")
 	l.RotLevel = rapid.IntRange(0, 4).Draw(t, "rotLevel")
+	l.Shadow = b("shadow")
+	l.FilterArray1 = b("filterArray1")
 	l.ResIndirect = b("resIndirect")
 	l.FontDictInd = b("fontDictInd")
 	l.ToUniFlate = b("toUniFlate")
